@@ -1,6 +1,6 @@
 (** Pinned statements of the C07 property theorems: compiled on every check, so a theorem cannot be
     weakened silently. *)
-From V Require Import Base.Util Gql.Ast Peg.Peg Gen.C07_grammar_gen C07.Builder C07.Model C07.AstEq C07.Spec C07.Proofs C07.Lexical C07.Strings C07.Numbers C07.Fuel C07.Shapes C07.Render C07.RenderValues C07.RenderArgs C07.RenderDirs C07.Properties.
+From V Require Import Base.Util Gql.Ast Peg.Peg Gen.C07_grammar_gen C07.Builder C07.Model C07.AstEq C07.Spec C07.Proofs C07.Lexical C07.Strings C07.Escapes C07.Numbers C07.Fuel C07.Shapes C07.Render C07.RenderValues C07.RenderArgs C07.RenderDirs C07.RenderSel C07.Properties.
 From V Require Import Peg.PegShape.
 From V Require Import Peg.PegProps.
 
@@ -12,9 +12,12 @@ Check (C07_lone_cr_refuted :
   exists inp d, parse_operation_document 0 inp = POk d /\ ck_opdoc inp 0 d = false /\ no_lone_cr inp = false).
 Check (C07_block_string_refuted :
   exists inp d, parse_operation_document 0 inp = POk d /\ ck_opdoc inp 0 d = false /\ no_lone_cr inp = true).
-Check (C07_surrogate_pair_refuted :
-  exists inp, parse_operation_document 0 inp = PPanic P_char /\
-              (exists t, string_at (skipn 7 inp) = Some t /\ t = [128512%N])).
+Check (C07_surrogate_pair_decodes :
+  exists d, parse_operation_document 0 w_surrogate_pair = POk d /\ string_arg_value d = Some [128512%N] /\
+            string_at (skipn 7 w_surrogate_pair) = Some [128512%N] /\ ck_opdoc w_surrogate_pair 0 d = true).
+Check (C07_bad_escapes_rejected :
+  forallb (fun w => match parse_operation_document 0 w with PErr => true | _ => false end
+                    && match string_at (skipn 7 w) with None => true | Some _ => false end) w_bad_escapes = true).
 Check (C07_object_type_without_fields_parses :
   exists d kw p n, parse_type_system_document 0 w_type_no_fields = POk d /\
     d = [TSType (TDObject None p n [] [] [] kw)] /\ iname n = s "A" /\ ck_tsdoc w_type_no_fields 0 d = true).
@@ -66,6 +69,32 @@ Check (C07_string_lex_empty : forall pre post file sk a,
   let t := Pair R_StringValue i (i + 2)%N [Pair R_EmptyStringValue i (i + 2)%N []] in
   runs gql_grammar sk a (Call R_StringValue) (quote [] ++ post) i (Ok (post, (i + 2)%N, [t]))
   /\ build_string_value inp file t = BOk (mkPos (fst (line_col inp i)) (snd (line_col inp i)) file false, [])).
+Check (C07_escapes_lex : forall it l pre post file sk a,
+  let items := it :: l in
+  forallb wf_item items = true ->
+  let inp := pre ++ iquote items ++ post in
+  let i := slen pre in
+  let t := items_tree items i in
+  runs gql_grammar sk a (Call R_StringValue) (iquote items ++ post) i (Ok (post, (i + slen (iquote items))%N, [t]))
+  /\ string_at (iquote items ++ post) = dec_items items
+  /\ match dec_items items with
+     | Some v => validate_pair inp t = VOk
+                 /\ build_string_value inp file t = BOk (mkPos (fst (line_col inp i)) (snd (line_col inp i)) file false, v)
+     | None => validate_pair inp t = VErr
+     end).
+Check (C07_surrogate_pair_is_one_char : forall a b c d a' b' c' d' pre post file,
+  let items := [IU4 a b c d; IU4 a' b' c' d'] in
+  forallb wf_item items = true ->
+  is_high_surrogate (u4_code a b c d) = true -> is_low_surrogate (u4_code a' b' c' d') = true ->
+  let ch := (65536 + (u4_code a b c d - 55296) * 1024 + (u4_code a' b' c' d' - 56320))%N in
+  string_at (iquote items ++ post) = Some [ch]
+  /\ build_string_value (pre ++ iquote items ++ post) file (items_tree items (slen pre))
+     = BOk (mkPos (fst (line_col (pre ++ iquote items ++ post) (slen pre))) (snd (line_col (pre ++ iquote items ++ post) (slen pre))) file false, [ch])).
+Check (C07_decode_fails_iff_spec : forall it l pre post,
+  let items := it :: l in
+  forallb wf_item items = true ->
+  (validate_pair (pre ++ iquote items ++ post) (items_tree items (slen pre)) = VErr <-> string_at (iquote items ++ post) = None)
+  /\ (validate_pair (pre ++ iquote items ++ post) (items_tree items (slen pre)) = VOk <-> exists v, string_at (iquote items ++ post) = Some v)).
 Check (C07_spec_reads_quote : forall v post, (v = [] -> not_quote_next post) -> string_at (quote v ++ post) = Some v).
 Check (C07_int_lex : forall l post sk i,
   is_int_lexeme l = true -> int_follow_ok post = true ->
@@ -125,10 +154,18 @@ Check (C07_parse_render_directives : forall d ds k, forallb rdir_wf (d :: ds) = 
     let t := Pair R_Directives i (i + m)%N (items_trees (map rdir_item (d :: ds)) i) in
     runs gql_grammar true ANon (Call R_Directives) (dirs_text (d :: ds) ++ k) i (Ok (g2 ++ k, (i + m)%N, [t]))
     /\ exists l, build_directives inp file t = BOk l /\ map dir_erase l = map rdir_erase (d :: ds)).
+Check (C07_parse_render_selection_set : forall ss, wf_ss ss = true ->
+  exists T : N -> pair rule, forall pre rest file,
+    let inp := pre ++ ss_text ss ++ rest in
+    let i := slen pre in
+    pair_rule (T i) = R_SelectionSet
+    /\ runs gql_grammar true ANon (Call R_SelectionSet) (ss_text ss ++ rest) i (Ok (rest, (i + slen (ss_text ss))%N, [T i]))
+    /\ exists ss', build_selection_set inp file (T i) = BOk ss' /\ ss_erase ss' = erase_ss ss).
 Print Assumptions C07_positions_true.
 Print Assumptions C07_lone_cr_refuted.
 Print Assumptions C07_block_string_refuted.
-Print Assumptions C07_surrogate_pair_refuted.
+Print Assumptions C07_surrogate_pair_decodes.
+Print Assumptions C07_bad_escapes_rejected.
 Print Assumptions C07_object_type_without_fields_parses.
 Print Assumptions C07_union_without_members_parses.
 Print Assumptions C07_pairs_replayable.
@@ -138,6 +175,9 @@ Print Assumptions C07_pair_spans_wf.
 Print Assumptions C07_pair_text_at_position.
 Print Assumptions C07_string_lex.
 Print Assumptions C07_string_lex_empty.
+Print Assumptions C07_escapes_lex.
+Print Assumptions C07_surrogate_pair_is_one_char.
+Print Assumptions C07_decode_fails_iff_spec.
 Print Assumptions C07_spec_reads_quote.
 Print Assumptions C07_int_lex.
 Print Assumptions C07_never_out_of_fuel.
@@ -150,3 +190,4 @@ Print Assumptions C07_parse_render_arguments.
 Print Assumptions C07_parse_render_directive_args.
 Print Assumptions C07_parse_render_directive_noargs.
 Print Assumptions C07_parse_render_directives.
+Print Assumptions C07_parse_render_selection_set.
